@@ -1,6 +1,7 @@
 package checks
 
 import (
+	"bytes"
 	"crypto/sha256"
 	"encoding/base64"
 	"encoding/hex"
@@ -67,7 +68,27 @@ func answerNeed(name string, arg any) (entry map[string]any, codecEvent []byte) 
 		if docs == nil {
 			docs = []any{}
 		}
-		codecEvent = J(map[string]any{"ev": "Codec", "name": name, "value": arg, "text": string(b), "decoded": ok, "docs": docs})
+		cev := map[string]any{"ev": "Codec", "name": name, "value": arg, "text": string(b), "decoded": ok, "docs": docs}
+		if f == "json" || f == "json-pretty" || f == "jsonl" {
+			// the three JSON encoders write the same tokens for the same value: they differ in white space only
+			compact := func(x []byte) string {
+				var buf bytes.Buffer
+				if json.Compact(&buf, bytes.TrimSpace(x)) != nil {
+					return "not JSON: " + string(x)
+				}
+				return buf.String()
+			}
+			consistent := true
+			for _, of := range []string{"json", "json-pretty", "jsonl"} {
+				ofm, _ := bkl.GetFormat(of)
+				ob, oerr := ofm.MarshalStream([]any{tv.ToGo(arg)})
+				if oerr != nil || compact(ob) != compact(b) {
+					consistent = false
+				}
+			}
+			cev["consistent"] = consistent
+		}
+		codecEvent = J(cev)
 	default:
 		entry["out"] = tv.T{"x", "error"}
 	}
